@@ -21,6 +21,7 @@ type presentation struct {
 	assertKeyOf          string // client whose registered key signed it ("" = a key the storage does not hold for anybody)
 	assertKid            string
 	label                string
+	bodyClient           string // a client_id form value that names another client than the credentials (must not win)
 }
 
 // claimedClient is the client id the presentation names.
